@@ -17,6 +17,7 @@ INT_LANDMARKS = {
     1000: 2 ** 63 - 1, 999: 2 ** 63 - 2, 1001: 2 ** 63, 1002: 2 ** 63 + 1,
     -1000: -(2 ** 63), -999: -(2 ** 63) + 1, -1001: -(2 ** 63) - 1, -1002: -(2 ** 63) - 2,
     2000: 10 ** 400, -2000: -(10 ** 400),
+    3000: 10 ** 5000,        # beyond CPython's default 4300-digit limit for int -> str
 }
 INT_LANDMARKS_INV = {v: k for k, v in INT_LANDMARKS.items()}
 FLOAT_LANDMARKS = {100100: float(2 ** 63), -100000: float(-(2 ** 63)), 200000: 1e308, -200000: -1e308}
